@@ -344,7 +344,7 @@ func TestC13(t *testing.T) {
 		if nontrivial {
 			sum.sample(map[string]any{"kind": c.Kind, "args": append(c.Flags.args(), c.Extra...), "grammar": truncT(string(c.Text), 400), "exit": res.Exit, "stderr": truncT(res.Stderr, 160)})
 		}
-		if kind == "" {
+		if kind == "" && res.Panic == "" {
 			n++
 			if n%10 == 0 {
 				if d := crossCheckCLI(dir, c, res, out); d != "" {
